@@ -140,6 +140,9 @@ def plan(tier, seed):
     for suite in ROGUE_SUITES:
         for ck in ROGUE_CLIENT_CERTS:
             batches.append({"gen": "rogue", "suites": [suite], "client_certs": [ck], "seed": seed * 1000003 + 950000})
+    # genuine peers over the configuration space of C03(c)
+    for i in range(6 if tier == "quick" else 60):
+        batches.append({"gen": "configs", "seed": seed * 1000003 + 970000 + 40 * i, "count": 40})
     rnd.shuffle(batches)
     return batches
 
@@ -531,6 +534,56 @@ def run_certs(batch, res, lib, gen):
     res.nontrivial.add("client|handshake|certs|%s|%s" % (kind, outcome))
 
 
+
+# ----------------------------------------------------------------------------- genuine peers, every configuration pair
+
+
+def run_configs(batch, res):
+    """Two genuine endpoints whose *configurations* differ (cipher suites, version lists and original version, ALPN lists,
+    Retry, client-certificate request, key type — the sampling space of C03(c)), over a lossy network: whatever the
+    combination negotiates or refuses, the input one endpoint's configuration makes the other one receive is network
+    input, and no exception may leave the API.  (C03 runs the same space for agreement and only *counts* API raises.)"""
+    import random as _random
+
+    from .. import c03_quic as Q
+    for i in range(batch["count"]):
+        seed = batch["seed"] + i
+        rng = _random.Random("c05-configs/%d" % seed)
+        o = Q.sample_options(rng)
+        # bias towards the corners: one side restricted to a single version while the other prefers another one
+        r = rng.random()
+        if r < 0.25:
+            only = rng.choice(["v1", "v2"])
+            other = "v2" if only == "v1" else "v1"
+            o["versions_s"] = [only]
+            o["versions_c"] = rng.choice([[other, only], [only, other]])
+            o["original_version"] = rng.choice([only, other])
+        fp = Q.fate_params(rng)
+        fp["loss"] = rng.choice([0.0, 0.0, 0.05])
+        case = {"gen": "configs", "seed": seed, "count": 1}
+        try:
+            sim, _mon = Q.run_hs(o, fp, seed, Q.TicketStore(), horizon=30.0)
+        except Exception as exc:  # the harness itself
+            res.inconclusive.append("configs seed %d: harness failed: %r" % (seed, exc))
+            continue
+        res.evaluations += 1
+        res.count("cases")
+        res.count("cases_configs")
+        ar = sim.api_raised
+        if ar is not None:
+            sig = signature(ar.exc) + ":genuine-peer"
+            w = exc_witness(ar.exc)
+            w["api_call"] = ar.call
+            w["options"] = {k: o[k] for k in sorted(o)}
+            res.violation(sig, "genuine client/server pair with options %r: %s() raised %r" % ({k: o[k] for k in ("versions_c", "versions_s", "original_version") if k in o}, ar.call, ar.exc), case, w)
+            outcome = "raised"
+        else:
+            c_done = any(type(e).__name__ == "HandshakeCompleted" for _t, e in sim.client.events) if sim.client is not None else False
+            outcome = "completed" if c_done else "not-completed"
+        res.count("k|configs|%s" % outcome)
+        res.nontrivial.add("configs|%s|%s|%s|%s|%s" % (tuple(o["versions_c"]), tuple(o["versions_s"]), o.get("original_version"), bool(o.get("retry")), outcome))
+
+
 # ----------------------------------------------------------------------------- consistent hostile flights (rogue server)
 
 ROGUE_SUITES = (0x1301, 0x1302, 0x1303)
@@ -669,6 +722,9 @@ def run_batch(batch):
             res.count("cpu_s_" + batch["fam"], round(time.process_time() - t0, 2))
         elif batch["gen"] == "replay":
             run_replay(batch, res, lib, gen)
+        elif batch["gen"] == "configs":
+            run_configs(batch, res)
+            res.count("cpu_s_configs", round(time.process_time() - t0, 2))
         elif batch["gen"] == "rogue":
             run_rogue(batch, res)
             res.count("cpu_s_rogue", round(time.process_time() - t0, 2))
